@@ -187,3 +187,33 @@ package tmstate
 //@   loop 1 invariant fresh-out: len(out) == 0 || fresh(out)
 // (The element-wise statement "every returned header satisfies phMatches" discharges only with a 60 s solver budget
 //  because of the 25-field struct copies in append; it is not claimed in the quick tier. See DESIGN.md.)
+
+// ---- C10: where the state machine resumes ----
+// Durable state of the state machine store and the finalization store as ghost state (keyed by 0 / by height).
+//@ ghost smh(ref) mathint
+//@ ghost smr(ref) mathint
+//@ ghost sminit(ref) bool
+//@ ghost finalized(ref) bool
+//@ iface tmstore.StateMachineStore.StateMachineHeightRound(st, ctx)
+//@   ensures result2 == nil ==> sminit(0) && result0 == smh(0) && result1 == smr(0)
+//@   ensures result2 == tmstore.ErrStoreUninitialized ==> !sminit(0)
+//@   modifies nothing
+//@ iface tmstore.FinalizationStore.LoadFinalizationByHeight(st, ctx, height)
+//@   ensures (result4 == nil) == finalized(height)
+//@   modifies nothing
+
+// The first round entrance after a start is the recorded position, or round 0 of the next height when the recorded
+// height already has a stored finalization (stop between the finalization write and the height/round write), or the
+// initial height when nothing was recorded yet.
+//@ define resumePoint(v, initial) = !sminit(0) ? (finalized(initial) ? (v.H == initial + 1 && v.R == 0) : (v.H == initial && v.R == 0)) :
+//@     (finalized(smh(0)) ? (v.H == smh(0) + 1 && v.R == 0) : (v.H == smh(0) && v.R == smr(0)))
+
+//@ func StateMachine.sendInitialActionSet
+//@   property C10
+//@   option explicit-panics allowed
+//@   requires m.smStore != nil && m.fStore != nil && m.hashScheme != nil
+//@   requires smh(0) < MAXU64 && m.genesis.InitialHeight < MAXU64
+//@   site reqresp roundEntranceOutCh resumes-at-recorded-position: resumePoint(reqValue, m.genesis.InitialHeight)
+//@   rely after roundEntranceOutCh responder-does-not-close-the-response-channel: !chanclosed(initRE.Response)
+//@   option frame off
+//@   modifies heap
